@@ -582,5 +582,38 @@ func c19Lints(ctx *core.Ctx, rep *core.Report, blocks []string) {
 			ca.Exts[3] = certgen.NameConstraintsIP([][]byte{{8, 8, 8, 0, 255, 255, 255, 0}, append(append([]byte{}, base...), mask...)}, nil)
 			check(ca.Build(), "permitted 8.8.8.0/24,"+n.String(), map[string]bool{"e_ext_nc_intersects_reserved_ip": want})
 		}
+		// lists of two permitted ranges, NESTED either way: every ordered pair of the chain of networks around this address
+		// (the address itself, small clear ranges, the block, its super-networks). The list is judged as a set: error ⇔
+		// some range intersects — whichever comes first, and whichever contains the other.
+		var chain []net.IPNet
+		seenNet := map[string]bool{}
+		for _, p := range []int{bits, bits - 2, bits - 8, a.prefix, a.prefix - 1, a.prefix - 3, 8, 6, 4} {
+			if p < 0 || p > bits {
+				continue
+			}
+			mask := net.CIDRMask(p, bits)
+			n := net.IPNet{IP: a.ip.Mask(mask), Mask: mask}
+			if !seenNet[n.String()] {
+				seenNet[n.String()] = true
+				chain = append(chain, n)
+			}
+		}
+		for i := range chain {
+			for j := range chain {
+				if i == j {
+					continue
+				}
+				want := util.IntersectsIANAReserved(chain[i]) || util.IntersectsIANAReserved(chain[j])
+				enc := func(n net.IPNet) []byte { return append(append([]byte{}, n.IP...), n.Mask...) }
+				ca := certgen.Spec{
+					Subject:   certgen.Name(certgen.ATV{OID: certgen.OIDC, Tag: 19, Val: "US"}, certgen.ATV{OID: certgen.OIDO, Tag: 12, Val: "Sub"}, certgen.ATV{OID: certgen.OIDCN, Tag: 12, Val: "Constrained CA"}),
+					NotBefore: date(2020, 6, 1), NotAfter: date(2025, 6, 1),
+					Exts: []*der.Node{certgen.KeyUsage(5, 6), certgen.EKU(certgen.EKUServerAuth), certgen.BasicConstraints(true, true),
+						certgen.NameConstraintsIP([][]byte{enc(chain[i]), enc(chain[j])}, nil)},
+				}
+				check(ca.Build(), "permitted "+chain[i].String()+","+chain[j].String(), map[string]bool{"e_ext_nc_intersects_reserved_ip": want})
+				rep.Inc("nested_constraint_pairs")
+			}
+		}
 	}
 }
